@@ -41,6 +41,7 @@ func init() {
 		"c13lookup":   c13Lookup,
 		"c13bind":     c13Bind,
 		"c18replay":   c18Replay,
+		"c19replay":   c19Replay,
 	}})
 }
 
